@@ -10,10 +10,10 @@ import (
 
 type Finding struct {
 	Properties []string `json:"properties"`
-	ID       string `json:"id"`
-	Status   string `json:"status"` // "open" | "fixed"
-	What     string `json:"what"`
-	Commit   string `json:"commit,omitempty"`
+	ID         string   `json:"id"`
+	Status     string   `json:"status"` // "open" | "fixed"
+	What       string   `json:"what"`
+	Commit     string   `json:"commit,omitempty"`
 }
 
 var (
